@@ -513,7 +513,9 @@ class ElectionState(_SynchronizedState):
                 if self.state_modes.is_master():
                     return SupvisorsStates.DISTRIBUTION
                 # the Slave waits for the Master to transition
-                if self.state_modes.master_state == SupvisorsStates.DISTRIBUTION:
+                # NOTE: a Slave delayed in ELECTION (e.g. after a transient loss of the Master that the Master
+                #       has not seen) may find the Master past DISTRIBUTION already
+                if self.state_modes.master_state in [SupvisorsStates.DISTRIBUTION, SupvisorsStates.OPERATION]:
                     return SupvisorsStates.DISTRIBUTION
             # re-evaluate the context to possibly get a more relevant Master
             self.state_modes.select_master()
